@@ -292,7 +292,11 @@ func (eng *Engine) verifyFunc(fn *ssa.Function, fc *FuncContract, props []string
 				label += ".panic"
 			}
 			where := fmt.Sprintf("%s:%d", cl.File, cl.Line)
-			if cs, ok := fc.Flags["cases"]; ok && ex.kind == exitReturn {
+			casesApply := true
+			if only, ok := fc.Flags["cases_for"]; ok && !sct.matches(strings.TrimPrefix(strings.TrimSpace(only), "@")) {
+				casesApply = false // `cases_for @tag`: the case split is for those scenarios only
+			}
+			if cs, ok := fc.Flags["cases"]; ok && ex.kind == exitReturn && casesApply {
 				// cases <lo> <hi> <expr>: one obligation per value of expr, plus completeness
 				parts := strings.SplitN(sct.subst(cs), " ", 3)
 				lo, _ := strconv.Atoi(parts[0])
